@@ -97,8 +97,24 @@ fn tmp_left(dir: &Path) -> usize {
     std::fs::read_dir(dir).map(|d| d.filter(|e| e.as_ref().map(|e| e.file_name() != "out.hex" && e.file_name() != "in.clsp").unwrap_or(false)).count()).unwrap_or(0)
 }
 
+/// can every user reach this path (every ancestor directory searchable by others)?
+fn reachable_by_everyone(p: &Path) -> bool {
+    use std::os::unix::fs::PermissionsExt;
+    p.ancestors().skip(1).all(|d| d.as_os_str().is_empty() || std::fs::metadata(d).map(|m| m.permissions().mode() & 0o001 != 0).unwrap_or(false))
+}
+
+thread_local! {
+    // the harness binary as the unprivileged child can execute it (a copy under the scratch area when the build
+    // directory lies below a directory closed to other users)
+    static CHILD_EXE: std::cell::RefCell<Option<PathBuf>> = const { std::cell::RefCell::new(None) };
+}
+
+fn child_exe() -> PathBuf {
+    CHILD_EXE.with(|c| c.borrow().clone()).unwrap_or_else(|| std::env::current_exe().unwrap())
+}
+
 fn child_cmd(target: &Path, id: &str, size: usize, unprivileged: bool) -> Command {
-    let mut c = Command::new(std::env::current_exe().unwrap());
+    let mut c = Command::new(child_exe());
     c.args(["c19-child", "--mode", "gentle", "--target", target.to_str().unwrap(), "--content", id, "--size", &size.to_string()]);
     c.stdout(Stdio::null()).stderr(Stdio::null());
     if unprivileged {
@@ -122,7 +138,19 @@ pub fn drive(args: &HashMap<String, String>) {
     let trace = args.get("trace").expect("--trace");
     let outp = args.get("out").expect("--out");
     let thorough = args.contains_key("thorough");
-    let base = PathBuf::from(args.get("scratch").expect("--scratch"));
+    let mut base = PathBuf::from(args.get("scratch").expect("--scratch"));
+    // the read-only scenarios run the writer as another user: scratch area and binary must be reachable for it
+    let mut _public: Option<tempfile::TempDir> = None;
+    if !reachable_by_everyone(&base.join("x")) || !reachable_by_everyone(&std::env::current_exe().unwrap()) {
+        use std::os::unix::fs::PermissionsExt;
+        let t = tempfile::Builder::new().prefix("vh_c19_").tempdir().expect("temp dir");
+        std::fs::set_permissions(t.path(), std::fs::Permissions::from_mode(0o755)).unwrap();
+        let exe = t.path().join("vh");
+        std::fs::copy(std::env::current_exe().unwrap(), &exe).expect("copy harness binary");
+        CHILD_EXE.with(|c| *c.borrow_mut() = Some(exe));
+        base = t.path().join("scratch");
+        _public = Some(t);
+    }
     let _ = std::fs::remove_dir_all(&base);
     std::fs::create_dir_all(&base).unwrap();
     {
@@ -196,7 +224,7 @@ pub fn drive(args: &HashMap<String, String>) {
             let log = base.join(format!("{name}.strace"));
             let mut c = Command::new("strace");
             c.args(["-f", "-o", log.to_str().unwrap(), "-e", &format!("trace={set}")]);
-            c.arg(std::env::current_exe().unwrap());
+            c.arg(child_exe());
             c.args(["c19-child", "--mode", "gentle", "--target", scn.target.to_str().unwrap(), "--content", id, "--size", &size.to_string()]);
             c.stdout(Stdio::null()).stderr(Stdio::null());
             let _ = c.status();
@@ -217,7 +245,7 @@ pub fn drive(args: &HashMap<String, String>) {
                 let scn = setup(&base, &name, kind, size);
                 let mut c = Command::new("strace");
                 c.args(["-f", "-o", "/dev/null", "-e", &format!("trace={set}"), "-e", &format!("inject={set}:signal=SIGKILL:when={k}")]);
-                c.arg(std::env::current_exe().unwrap());
+                c.arg(child_exe());
                 c.args(["c19-child", "--mode", "gentle", "--target", scn.target.to_str().unwrap(), "--content", id, "--size", &size.to_string()]);
                 c.stdout(Stdio::null()).stderr(Stdio::null());
                 let st = c.status().expect("strace run");
@@ -301,7 +329,7 @@ pub fn drive(args: &HashMap<String, String>) {
         // compile_clvm skips the write when the output is newer than the input: age the output
         let old_time = std::time::SystemTime::now() - std::time::Duration::from_secs(3600);
         let _ = std::fs::File::options().write(true).open(&scn.target).and_then(|fh| fh.set_modified(old_time));
-        let mut c = Command::new(std::env::current_exe().unwrap());
+        let mut c = Command::new(child_exe());
         c.args(["c19-child", "--mode", "compile", "--target", scn.target.to_str().unwrap(), "--input", input.to_str().unwrap()]);
         c.stdout(Stdio::null()).stderr(Stdio::null());
         if let Some(p) = point {
